@@ -4,6 +4,21 @@ NOT_APPLICABLE = {}
 BASE_NOTE = ("Trusted: Lean 4.33 kernel (axioms at most propext, Classical.choice, Quot.sound; audited per theorem on every run), "
              "the go/ast fact extractor and its expectations, the seeded correspondence harness (coverage reported in evidence). ")
 TEXT = {
+    "C15": dict(
+        text="Theorems effect_requires_token, refused_has_no_effect, unexpected_token_refused, unix_socket_exempt, "
+             "info_commands_never_effect over the decision model of processSignature and the dispatch order of ControlFunc. Tie: "
+             "regenerated facts (gate conditions, ShouldVerifySignature, Unix test, per-arm order gate-before-effect, VerifySignature "
+             "steps) + differential runs of the real InitFromJSON/ControlFunc on a real Workceptor over the product command x connection "
+             "kind x work type x 13 token classes minted by the harness (effects observed: units created/started/cancelled/removed, "
+             "output read).",
+        note=BASE_NOTE + "JWT/RSA verification is an oracle (ground truth by construction of the tokens)."),
+    "C19": dict(
+        text="Theorems redacted_has_no_secret_key, non_secret_unchanged, secret_any_case, redact_idem, refused_before_store / "
+             "stored_otherwise over the model of remoteUnit.Status and AllocateRemoteUnit. Tie: regenerated facts (redaction test, same "
+             "test and its position before AllocateUnit, responses built from Status(), callers of UnredactedStatus) + differential runs "
+             "on a real Workceptor: random parameter maps (key case variants, boundary keys), with/without TLS profile, with a restart "
+             "from disk; every status/list response scanned for the secret values.",
+        note=BASE_NOTE + "Only remote units carry secret_* parameters; Kubernetes units have their own redaction (outside the anchors)."),
     "C16": dict(
         text="Theorems notice_fields_echo, local_sender_gets_error, notice_published_at_origin, notice_only_to_sender_socket / "
              "notice_not_to_other_nodes, dial_cancelled_by_notice / other_notices_do_not_cancel, drop_is_silent over the packet-handling "
